@@ -212,6 +212,27 @@ def e3_capacity(F, R, M, add_id, rule='E3', rule1='E1'):
             return False
         return any(bl['term']['k'] == 'call' and (bl['term'].get('fn', '').endswith('::leak') or bl['term'].get('fn', '').endswith('::into_raw'))
                    for bl in b['blocks'])
+    # the form that was admitted is the form that is written: the indirect writer (admitted with room for ONE descriptor)
+    # never reaches the direct writer, which takes one descriptor per buffer
+    forms = set(e[2] for p in paths if err_variant(p.ret) == 'Ok' for e in p.effects if e[0] == 'call' and e[2] in F.bodies and F.handwritten(F.bodies[e[2]])
+                and has_loop(F.bodies[e[2]]))
+    ind_w = set(f for f in forms if is_indirect_callee(f))
+    dir_w = forms - ind_w
+    for iw in sorted(ind_w):
+        seen, st = set(), [iw]
+        while st:
+            x = st.pop()
+            if x in seen or x not in F.bodies:
+                continue
+            seen.add(x)
+            for bl in F.bodies[x]['blocks']:
+                t = bl['term']
+                if t['k'] == 'call' and t.get('fn') in F.bodies and F.handwritten(F.bodies[t['fn']]):
+                    st.append(t['fn'])
+        hit = sorted(seen & dir_w)
+        R.check(not hit, rule, '%s:admitted-form-is-written-form' % iw, fn_site(F, iw), 'the indirect writer does not fall back to the direct writer',
+                'the indirect submission path can call the direct writer %s: the capacity test admitted it with room for one descriptor, '
+                'the direct writer takes one per buffer and walks past the end of the free list into descriptors of chains still in flight' % hit)
     # E1 for add: refusal paths have no effects
     for p in paths:
         ev = err_variant(p.ret)
